@@ -287,11 +287,18 @@ struct FaultCase {
     op: Op,
     draw_index: usize,
     fill: u8,
+    /// script the FIRST draw of the operation with this byte repeated (0xff / 0x00 candidates are
+    /// rejected by rejection-sampling loops, which makes the operation draw again)
+    #[serde(default)]
+    first_draw_fill: Option<u8>,
 }
 
 fn fault_one<B: Backend>(acc: &mut Acc, fx: &Fixture<B>, c: &FaultCase) -> R {
     let name = B::NAME;
     rng::begin_op();
+    if let Some(b) = c.first_draw_fill {
+        rng::script_first_any_len(b);
+    }
     rng::fail_at(c.draw_index, c.fill);
     let r = catch(|| run_op::<B>(fx, c.op));
     let log = rng::end_op();
@@ -356,9 +363,28 @@ fn faults<B: Backend>(acc: &mut Acc) {
             }
             for k in 0..log.len() {
                 for fill in 0..3u8 {
-                    let c = FaultCase { op, draw_index: k, fill };
+                    let c = FaultCase { op, draw_index: k, fill, first_draw_fill: None };
                     total += 1;
                     acc.check(&c, |acc| fault_one::<B>(acc, &fx, &c));
+                }
+            }
+            // retry paths: a first candidate of all-ones / all-zero bytes is rejected by rejection
+            // sampling (P-384 scalars); the redraws it causes must fail closed as well
+            for pattern in [0xffu8, 0x00] {
+                rng::begin_op();
+                rng::script_first_any_len(pattern);
+                let retried = run_op::<B>(&fx, op);
+                let log2 = rng::end_op();
+                if retried.is_err() || log2.len() <= log.len() {
+                    continue;
+                }
+                acc.class("fault:retry-path-reached");
+                for k in log.len()..log2.len() {
+                    for fill in 0..3u8 {
+                        let c = FaultCase { op, draw_index: k, fill, first_draw_fill: Some(pattern) };
+                        total += 1;
+                        acc.check(&c, |acc| fault_one::<B>(acc, &fx, &c));
+                    }
                 }
             }
         }
@@ -399,7 +425,7 @@ pub fn def() -> PropertyDef {
     PropertyDef {
         id: "C16",
         level: "fault_enumeration",
-        rule: "(1) histories: per back end and operation kind {encrypt, sign (randomised signers), PIE wrap, password wrap, key seal, LocalKey::random, SecretKey::random} N consecutive operations with IDENTICAL keys and messages (N = 20000 / 5000 / 100..3000 for RSA- and ECDH-bound kinds in quick, up to 10^5 thorough); the nonce / salt / ephemeral key / signature / key of every output goes into a set: no repeats, no identical outputs; on getrandom back ends the draw log must show the draw(s) of the specified width and the output field must be the prescribed function of the drawn bytes (v3/v4 nonce = draw, v1/v2 nonce = MAC(draw, m), PBKW salt/nonce = draws, epk = [draw]G, c = r^e, generated key = draw); (2) fault sequences on getrandom back ends: for every operation kind and EVERY draw index it makes, the draw fails after filling 0, half or all of the buffer: the result must be Err (no panic, no output) and the next operation must succeed. Non-trivial iff the operation has a predecessor with identical inputs / an injected failure at index >= 1 or with a partially filled buffer",
+        rule: "(1) histories: per back end and operation kind {encrypt, sign (randomised signers), PIE wrap, password wrap, key seal, LocalKey::random, SecretKey::random} N consecutive operations with IDENTICAL keys and messages (N = 20000 / 5000 / 100..3000 for RSA- and ECDH-bound kinds in quick, up to 10^5 thorough); the nonce / salt / ephemeral key / signature / key of every output goes into a set: no repeats, no identical outputs; on getrandom back ends the draw log must show the draw(s) of the specified width and the output field must be the prescribed function of the drawn bytes (v3/v4 nonce = draw, v1/v2 nonce = MAC(draw, m), PBKW salt/nonce = draws, epk = [draw]G, c = r^e, generated key = draw); (2) fault sequences on getrandom back ends: for every operation kind and EVERY draw index it makes, the draw fails after filling 0, half or all of the buffer (including the extra draws of rejection-sampling retry paths, reached by scripting an all-ones / all-zero first candidate): the result must be Err (no panic, no output) and the next operation must succeed. Non-trivial iff the operation has a predecessor with identical inputs / an injected failure at index >= 1 or with a partially filled buffer",
         assumptions: vec![
             "aws-lc (RAND_bytes), libsodium (randombytes) and rsa::OsRng (getrandom 0.2) cannot be failed in-process; for them only the history part applies",
             "getrandom back ends draw from a seeded deterministic stream during histories (distinct per draw), so a repeat can only come from the library",
